@@ -85,7 +85,7 @@ def long_records(spec, values):
 HEADER_STYLES = ["names", "letters", "mixed", "anonymous"]
 
 
-def render(spec, recs, rng, layout="long", wide_dim=None, header="names", in_index="none", vname="value", omit_single=False, unnamed_year_index=False,
+def render(spec, recs, rng, layout="long", wide_dim=None, header="names", in_index="none", vname="value", omit_single=False, unnamed_year_index=False, foreign_named_index=False,
            perm_rows=True, perm_cols=True, value_pos=None):
     """Build a DataFrame.  Returns (df, info) where info describes the structure (for finding predicates)."""
     k = len(spec)
@@ -150,6 +150,15 @@ def render(spec, recs, rng, layout="long", wide_dim=None, header="names", in_ind
             df.index = df.index.astype(np.int64)
             df.index.name = None
             info["unnamed_year_index"] = yc[0]
+    if foreign_named_index and layout == "long" and in_index == "none" and header in ("names", "letters") and not info.get("unnamed_year_index"):
+        # a dimension held in the frame's index under a header that is neither its name nor its letter ("code", the "Unnamed: 0" of a
+        # re-read file): the index becomes a column and the dimension is identified through its items
+        ic = [c for c in dim_cols_present if len(info["dimcol_of"][c][2]) > 1 and all(isinstance(q, int) and not isinstance(q, bool) for q in info["dimcol_of"][c][2])]
+        if ic:
+            df = df.set_index(ic[0])
+            df.index = df.index.astype(np.int64)
+            df.index.name = ["code", "Unnamed: 0", "id"][int(rng.integers(0, 3))]
+            info["foreign_named_index"] = ic[0]
     info["columns"] = [str(c) for c in (list(df.index.names) if df.index.names != [None] else []) + list(df.columns)]
     # structural facts for finding predicates
     if header == "anonymous" and layout == "long":
